@@ -4,6 +4,7 @@ import (
 	"crypto/md5"
 	"math/rand"
 	"strconv"
+	"time"
 
 	"github.com/hujm2023/go-sms-protocol/cmpp"
 	"github.com/hujm2023/go-sms-protocol/cmpp/cmpp20"
@@ -149,6 +150,18 @@ func runAuth(c Case, tr *Tracer) {
 		}
 	}
 	tr.emit(Ev{"ev": "Build", "proto": proto, "account": S(acc), "secret": S(sec), "ts": int(ts), "auth": B(auth), "site": site})
+	// the timestamp pair of a CMPP login (the string goes into the digest, the number into the PDU) taken from a
+	// clock that moves on by one second every time it is read, starting just before a minute / day boundary
+	{
+		base := time.Date(2024, time.Month(1+int(ts)%12), 1+int(ts/12)%28, 23, 59, 58+int(ts)%2, 999000000, time.Local)
+		reads := 0
+		clock := func() time.Time {
+			reads++
+			return base.Add(time.Duration(reads-1) * time.Second)
+		}
+		str, num := cmpp.GenConnectTimestamp(clock)
+		tr.emit(Ev{"ev": "Stamp", "s": S(str), "n": int(num), "reads": reads, "site": "cmpp.GenConnectTimestamp"})
+	}
 
 	// ---- transmitted, decoded by the server
 	wire, err := req.IEncode()
